@@ -22,7 +22,10 @@ RULE = ("sweep: each of the 128 ASCII code points and 24 chosen non-ASCII scalar
         "escapes (backslash-u-0041, a forged second log line), messages written in 1-3 Display pieces, a "
         "few multi-kilobyte messages; two-step histories: the same thread first encodes 1-3 marker records "
         "into a writer that fails at its first write or after 1..400 accepted bytes, then the observed "
-        "record into a good writer (each encode call is one record, one line, whatever failed before). "
+        "record into a good writer (each encode call is one record, one line, whatever failed before); a length "
+        "sweep (messages of n plain bytes followed by an escaped character, plain messages and two-piece messages "
+        "for n = 0..1059 [quick: the ~80 lengths around every multiple of 128]) so that every byte offset of the "
+        "line is the end of some writer call. "
         "non-trivial = some string contains a byte that must be escaped "
         "(quote, backslash, < 0x20); distinct = distinct case line")
 ASSUMPTIONS = [
@@ -147,6 +150,18 @@ def cases(rng, tier):
     for _ in range(10 if not thorough else 100):
         out.append(mk(rng.range(1, 5), ["".join(rstr(rng, 3, 8) for _ in range(rng.range(50, 400)))],
                       mdc=rmdc(rng, rng.below(3))))
+    # 5. length sweep: the line's byte offsets 64..1100 are each hit as the END of a writer call
+    # (the unescaped run before an escaped character ends at prefix + n for every n in the sweep; a plain
+    # message of every length; two Display pieces meeting at every offset): internal buffers with a
+    # power-of-two size (128, 256, 512, 1024) must not show
+    step = 1 if thorough else 1
+    for n in range(0, 1060, step):
+        if not thorough and not (40 <= n % 128 <= 127 or n % 128 <= 8):
+            continue          # quick: the 70+9 lengths around each multiple of 128 (prefix is 60-85 bytes)
+        out.append(mk(3, ["a" * n + '"' + "b" * 20]))
+        if n % 2 == 0:
+            out.append(mk(2, ["c" * n]))
+            out.append(mk(4, ["d" * n, "\\" + "e" * 9], thread="thr"))
     return out
 
 
